@@ -137,3 +137,58 @@ func VH_C12_V2Commitment() {
 	vh.Assert(vh.Implies(c1 == c2, vh.And(sameState, m1 == m2, vh.Eq(v1, v2))), "v2 commitment does not bind parent state, miner address and transactions")
 	vh.Reach("end")
 }
+
+// v1 partial signature hash: binds the era's replay prefix for siacoin AND
+// siafund inputs, and (same covered fields, same shape) the covered content
+func VH_C12_V1PartialSigHash() {
+	n := vhNetwork("net")
+	s1 := vhState("s1", n)
+	s2 := vhState("s2", n)
+	var t1, t2 types.Transaction
+	which := vh.Choice("covered", 2)
+	for _, t := range []*types.Transaction{&t1, &t2} {
+		t.SiacoinInputs = make([]types.SiacoinInput, 1)
+		t.SiafundInputs = make([]types.SiafundInput, 1)
+		t.SiacoinOutputs = make([]types.SiacoinOutput, 1)
+	}
+	vh.Fill("t1", &t1)
+	vh.Fill("t2", &t2)
+	for _, t := range []*types.Transaction{&t1, &t2} {
+		vh.Assume(vh.And(t.SiacoinOutputs[0].Value.Hi == 0, t.SiacoinOutputs[0].Value.Lo < 256, t.SiacoinOutputs[0].Value.Lo > 0))
+	}
+	var cf types.CoveredFields
+	if which == 0 {
+		cf.SiacoinInputs = []uint64{0}
+		cf.SiacoinOutputs = []uint64{0}
+	} else {
+		cf.SiafundInputs = []uint64{0}
+		cf.SiacoinOutputs = []uint64{0}
+	}
+	era := func(s State) int {
+		switch {
+		case s.Index.Height >= s.Network.HardforkV2.AllowHeight:
+			return 3
+		case s.Index.Height >= s.Network.HardforkFoundation.Height:
+			return 2
+		case s.Index.Height >= s.Network.HardforkASIC.Height:
+			return 1
+		}
+		return 0
+	}
+	e1, e2 := era(s1), era(s2)
+	h1 := s1.PartialSigHash(t1, cf)
+	if e1 != e2 {
+		vh.Assert(h1 != s2.PartialSigHash(t1, cf), "v1 partial signature hash identical across replay-protection eras")
+		vh.Reach("cross-era")
+		return
+	}
+	h2 := s2.PartialSigHash(t2, cf)
+	same := vh.Eq(t1.SiacoinOutputs[0], t2.SiacoinOutputs[0])
+	if which == 0 {
+		same = vh.And(same, vh.Eq(t1.SiacoinInputs[0], t2.SiacoinInputs[0]))
+	} else {
+		same = vh.And(same, vh.Eq(t1.SiafundInputs[0], t2.SiafundInputs[0]))
+	}
+	vh.Assert(vh.Implies(h1 == h2, same), "v1 partial signature hash does not bind the covered fields")
+	vh.Reach("same-era")
+}
